@@ -1,7 +1,7 @@
 (* C06 - every key-value backend behaves like the one reference storage semantics.
    Statements only; proofs are `exact` into Storage/SpecLaws.v and C06_Storage/Proofs.v. *)
 From Coq Require Import List NArith ZArith Lia.
-From V Require Import Lib.Lex Lib.SMap Lib.Check Storage.Spec Storage.SpecLaws Gen.Params C06_Storage.Model C06_Storage.Proofs C06_Storage.Scan C06_Storage.Link.
+From V Require Import Lib.Lex Lib.SMap Lib.Check Storage.Spec Storage.SpecLaws Gen.Params C06_Storage.Model C06_Storage.Proofs C06_Storage.Scan C06_Storage.Link C06_Storage.Conc.
 Import ListNotations.
 Local Open Scope Z_scope.
 
@@ -131,6 +131,29 @@ Proof.
   - vm_compute. reflexivity.
 Qed.
 
+(* ---- conditional operations act atomically ----
+   bbolt checks and writes in one transaction (repaired finding F6; the flag is read from the source) *)
+Lemma conditional_ops_are_one_transaction : bbolt_cond_ops_single_tx = true.
+Proof. reflexivity. Qed.
+
+(* Any number of callers performing a conditional insert on the same absent row, interleaved in any
+   order at the granularity of the backend's transactions: never two of them are told ok, and as soon
+   as one of them has returned exactly one has been told ok. *)
+Theorem concurrent_conditional_inserts_have_one_winner : forall n sched s,
+  crun bbolt_cond_ops_single_tx (cinit n) sched = Some s ->
+  (winners s <= 1)%nat /\ (existsb is_done (c_pcs s) = true -> winners s = 1%nat).
+Proof. rewrite conditional_ops_are_one_transaction. exact one_winner_proved. Qed.
+
+(* the one transaction is necessary: with the check in one transaction and the write in the next
+   (the code before the repair) two callers both win *)
+Example two_transactions_two_winners_refuted :
+  exists sched s, crun false (cinit 2) sched = Some s /\ winners s = 2%nat.
+Proof. exists [0; 1; 0; 1]%nat. eexists. split; [vm_compute; reflexivity|reflexivity]. Qed.
+
+Example one_winner_nonvacuous :
+  exists s, crun true (cinit 3) [2; 0; 1]%nat = Some s /\ winners s = 1%nat /\ c_row s = Some 2%nat.
+Proof. eexists. split; [vm_compute; reflexivity|split; reflexivity]. Qed.
+
 Print Assumptions point_read_latest_write.
 Print Assumptions point_read_frame.
 Print Assumptions batch_read_pointwise.
@@ -143,5 +166,6 @@ Print Assumptions compare_and_delete_decides.
 Print Assumptions ttl_visible_until_expiry.
 Print Assumptions bbolt_refines_reference.
 Print Assumptions bbolt_refines_reference_partial.
+Print Assumptions concurrent_conditional_inserts_have_one_winner.
 Print Assumptions bbolt_live_view.
 Print Assumptions agrees_implies_satisfies.
